@@ -137,8 +137,8 @@ theorem max_ops_ge_script_ops (ctx : Ctx) (h160 : Bytes → Bytes) (n : Ms) (ver
      EVERY multi() ≤ 201), which is `is_within_resource_limits`' bound when no two multi() sit in
      different branches; full statement: under `withinLimits` alone (needs the executed-path charge
      ≤ `_ops.sat`, not proved);
-   * the witness/stack bounds of the chosen satisfaction are proved for expressions without a quorum
-     fragment and for canonical candidates (`noQuorum`, `nonCanonical = false`);
+   * the witness/stack bounds of the chosen satisfaction are proved for expressions without a
+     `thresh` and for canonical candidates (`noThresh`, `nonCanonical = false`);
    * the 1000-element bound DURING execution is not modelled. -/
 
 /-- T3: every typed expression — every fragment of BIP379, both dialects — does to the stack what
@@ -296,17 +296,19 @@ example :
     obtain ⟨_, rfl⟩ := hoff k σ h
     decide
 
-/-- T4 (bounds), expressions without a quorum fragment: whenever the modelled `satisfy` returns a
+/-- T4 (bounds), expressions without a `thresh` (the key quorums `multi`, `multi_a` included: every
+    `reached[j]` of `_multi_input` is measured exactly): whenever the modelled `satisfy` returns a
     witness `w` for a typed, shaped top-level "B" — the spender's signatures being no longer than
     the context's largest (72 / 65 bytes) and the chosen candidate being one of BIP379's canonical
     options (`nonCanonical = false`: the `non_canonical` mark of the source, which `satisfy` itself
     does not read) — `w` has at most `max_stack_items` elements and `max_witness_size` bytes (each
     element with its length byte, as the source counts), and the script's counted op codes are at
-    most `max_ops`.  Full statement (not proved): the same with `multi`, `multi_a`, `thresh`
-    (`noQuorum` dropped) and without `hcan`. -/
+    most `max_ops`.  Full statement (not proved): the same with `thresh` (`noThresh` dropped: the
+    satisfier folds the arguments from the last, the bound tables from the first) and without
+    `hcan`. -/
 theorem satisfy_within_bounds_partial (ctx : Ctx) (env : SatEnv) (hS : SigsSmall ctx env)
     (h160 : Bytes → Bytes) (n : Ms) (h : s1Typed ctx n = true) (hs : shaped ctx n = true)
-    (hq : noQuorum n = true)
+    (hq : noThresh n = true)
     (hB : (typeOf ctx n).B = true) (w : List Bytes) (hsat : satisfy ctx env n = .ok w)
     (hcan : (inputs ctx env n).sat.nonCanonical = false) :
     (∃ m, maxStackItems ctx n = some m ∧ (w.length : Int) ≤ m) ∧
@@ -316,12 +318,12 @@ theorem satisfy_within_bounds_partial (ctx : Ctx) (env : SatEnv) (hS : SigsSmall
   exact ⟨hm, hb, fun o ho => max_ops_ge_script_ops ctx h160 n false o ho⟩
 
 /-- `satisfy_accepted_partial` with the 1000-element hypothesis DERIVED, P2WSH, expressions without
-    a quorum fragment, canonical candidate: `is_within_resource_limits` bounds `max_stack_items` by
+    a `thresh`, canonical candidate: `is_within_resource_limits` bounds `max_stack_items` by
     100 and `satisfy_within_bounds_partial` the witness by `max_stack_items`. -/
 theorem satisfy_accepted_p2wsh_partial (E : EvalEnv) (hsig0 : ∀ k, E.sigOK k [] = false)
     (env : SatEnv) (hE : EnvOK E .p2wsh env) (hS : SigsSmall .p2wsh env) (h160 : Bytes → Bytes)
     (hH : ∀ k, E.hashF .hash160 k = h160 k) (hh : ∀ b, (h160 b).length = 20) (n : Ms)
-    (h : s1Typed .p2wsh n = true) (hshape : shaped .p2wsh n = true) (hq : noQuorum n = true)
+    (h : s1Typed .p2wsh n = true) (hshape : shaped .p2wsh n = true) (hq : noThresh n = true)
     (hB : (typeOf .p2wsh n).B = true) (hlim : withinLimits .p2wsh n = true)
     (hst : opsStaticOK .p2wsh n = true) (hz : zeroOK E n = true) (w : List Bytes)
     (hsat : satisfy .p2wsh env n = .ok w)
